@@ -47,7 +47,10 @@ type c09Config struct {
 	Scripts []c09Script
 }
 
-func c09Name(i int) string { return string(rune('a'+i)) + ".p" }
+// script names are ordinary map keys: per cents, blanks and dots included
+func c09Name(i int) string {
+	return []string{"a.p", "b%d.p", "100%.p", "d %s d.p", "e.p", "f.p"}[i%6]
+}
 
 func c09PerScript(n int) int64 { return 3 * (1 + int64(n+1) + int64(n+1)*int64(n+1)) }
 
